@@ -214,17 +214,22 @@ def gen_terms(tier):  # noqa: C901
         sizes = {"i": 2, "j": 3, "k": 2}
         operands = [ph("abc"[n], tuple(sizes[c] for c in o), "int64") for n, o in enumerate(ops)]
         yield "Einsum", ["einsum", spec, *operands]
-        # unit-axis broadcasting variant: first occurrence of a repeated letter gets length 1
+        # unit-axis broadcasting variants: every single operand in turn reads a repeated letter
+        # through an axis of length 1 (so both "unit operand first" and "longer operand first")
         cnt = {}
         for o in ops:
             for c in set(o):
                 cnt[c] = cnt.get(c, 0) + 1
         rep = [c for c in "ijk" if cnt.get(c, 0) >= 2]
-        if rep and len(ops) <= 2:
-            c0 = rep[0]
-            shp0 = tuple(1 if c == c0 else sizes[c] for c in ops[0])
-            operands2 = [ph("a", shp0, "int64")] + operands[1:]
-            yield "Einsum", ["einsum", spec, *operands2]
+        if rep and len(ops) <= 3:
+            for c0 in rep:
+                for which in range(len(ops)):
+                    if c0 not in ops[which]:
+                        continue
+                    operands2 = list(operands)
+                    shp = tuple(1 if c == c0 else sizes[c] for c in ops[which])
+                    operands2[which] = ph("abc"[which], shp, "int64")
+                    yield "Einsum", ["einsum", spec, *operands2]
     for s1, s2 in [((2, 3), (3, 2)), ((3,), (3,)), ((2, 3), (3,)), ((3,), (3, 2)), ((2, 2, 3), (3, 2)),
                    ((2, 2, 3), (2, 3, 2)), ((2, 3), (2, 3, 2)), ((2, 1, 2, 3), (3, 3, 2)), ((2, 0), (0, 3)),
                    ((1, 2, 3), (2, 3, 2))]:
